@@ -320,6 +320,31 @@ def run_check(tier, seed):
         cases.append(ver("zerv", stdin, argv))
     correspond(run, "schema_index_ops_random_schemas", cases, **kw)
 
+    # 3b. several operations on LITERAL components of one section (str / uint, mixed with variables): every operation works on the section as the
+    # previous ones left it - two or three operations per section, overrides and bumps, all index spellings, both flag orders
+    cases = []
+    LIT = [[("u", 7), ("s", "nightly")], [("s", "x"), ("s", "y")], [("u", 1), ("u", 2), ("s", "z")], [("s", "a"), ("u", 0), ("s", "b"), ("u", 9)], [("v", "Distance"), ("u", 5), ("s", "k")]]
+    for _ in range(n // 2):
+        lit = rng.choice(LIT)
+        sec, flag = rng.choice([("build", "build"), ("extra", "extra-core"), ("core", "core")])
+        s = {"core": [("v", "Major"), ("v", "Minor"), ("v", "Patch")], "extra": [("v", "Epoch"), ("v", "PreRelease"), ("v", "Post")], "build": []}
+        s[sec] = s[sec] + lit
+        L = len(s[sec])
+        v = dict(rand_start_vars(rng), custom={})
+        ops = []
+        for i in rng.sample(range(L - len(lit), L), rng.choice([2, 2, min(3, len(lit))])):
+            sp = rng.choice([str(i), str(i - L), "~" + str(L - i)])
+            kind = s[sec][i][0]
+            if kind == "s":
+                ops.append(f"--{flag}={sp}={rng.choice(['weekly', 'q', 'rel', '0x'])}")
+            elif rng.random() < 0.5:
+                ops.append(f"--{flag}={sp}={rng.choice([0, 3, 10, 4294967295])}")
+            else:
+                ops.append(f"--bump-{flag}={sp}" + rng.choice(["", "=3", "=0", "=1"]))
+        rng.shuffle(ops)
+        cases.append(ver("zerv", zgen.enc_zerv(s, v), ["--source=stdin", "--output-format=zerv"] + ops))
+    correspond(run, "several_operations_on_literal_components_of_one_section", cases, **kw)
+
     # 4. index spellings i, i-len, ~(len-i) and the by-name flag address the same component (single operation)
     cases, groups = [], []
     names = {"Major": "major", "Minor": "minor", "Patch": "patch", "Epoch": "epoch", "Post": "post", "Dev": "dev", "PreRelease": "pre-release-num"}
